@@ -1,0 +1,8 @@
+//go:build verif
+// +build verif
+
+package packed
+
+// VerifMin is min, exported for the translation validation of the verification framework
+// (compiled only with the build tag "verif").
+func VerifMin(a, b int) int { return min(a, b) }
